@@ -350,6 +350,18 @@ def foreign(name, sysm):
             g3 = sysm.cls(sysm.author_cfg)
             k = sysm.spec
             do_call(g3, k.get('B'), k['inputs']['rightB'])
+        elif name == 'other_graders_with_options':
+            # unrelated graders that switch on the options which extend the default scope of names for themselves only
+            do_call(FormulaGrader(answers='2k*f(q)', metric_suffixes=True, user_functions={'f': np.tan, 'sin': np.cos},
+                                  user_constants={'q': 2.0, 'e': 5.0}, suppress_warnings=True), None, '2000*f(q)')
+            do_call(NumericalGrader(answers='3M', metric_suffixes=True, user_functions={'h': np.exp}), None, '3000k')
+            do_call(MatrixGrader(answers='1m*[1,2]', metric_suffixes=True, max_array_dim=1, identity_dim=3,
+                                 user_constants={'v0': MathArray([1.0, 2.0])}), None, '[1,2]/1000')
+            do_call(SumGrader(answers=dict(lower='1', upper='3', summand='2k*n', summation_variable='n'), metric_suffixes=True,
+                              user_constants={'w': 1.5}), None, ['1', '3', '2000*n', 'n'])
+            do_call(StringGrader(answers='Cat', case_sensitive=False, strip_all=True, accept_any=False), None, 'c a t')
+            do_call(SingleListGrader(answers=['1k', '2'], subgrader=NumericalGrader(metric_suffixes=True), delimiter=';',
+                                     partial_credit=False), None, '2;1000')
         elif name == 'register_clear_defaults_on_sibling':
             sib = NumericalGrader if sysm.cls is not NumericalGrader else StringGrader
             sib.register_defaults({'debug': True})
@@ -362,7 +374,8 @@ def foreign(name, sysm):
         raise HarnessError('foreign event %s failed: %r' % (name, e))
 
 
-FOREIGN_Q = ['other_matrix_negpow_off_raises', 'third_grader_from_same_author_config', 'other_grader_deletes_pi']
+FOREIGN_Q = ['other_matrix_negpow_off_raises', 'third_grader_from_same_author_config', 'other_grader_deletes_pi',
+             'other_graders_with_options']
 FOREIGN_T = FOREIGN_Q + ['failing_parse', 'other_grader_allow_inf', 'other_grader_identity_dim',
                          'other_matrix_negpow_off_ok', 'register_clear_defaults_on_sibling']
 
@@ -730,6 +743,10 @@ def families(tier):
     for kind in CONFIGURED_ONLY:
         for debug in debug_opts:
             fams.append(GraderHistory(kind, True, debug))
+    if tier == 'quick':
+        # debug mode: a few kinds in the quick tier too (the log of one call must not reach the next one)
+        for kind, configured in (('Formula', False), ('String', True), ('SingleList', False), ('List', True)):
+            fams.append(GraderHistory(kind, configured, True))
     fams.append(Scopes())
     fams.append(RegisteredDefaults())
     return fams
